@@ -536,6 +536,11 @@ impl Prop for C20 {
       _ => panic!("unknown task {}", t),
     }
   }
+  fn cold_subs(&self) -> Vec<(&'static str, i64, i64, fn(i64) -> Vec<i64>)> {
+    let c = cal();
+    let (h0, h1) = (c.index(2000, 1, 1).unwrap() as i64, c.index(2030, 12, 31).unwrap() as i64 + 1);
+    vec![("sdate", 0, NDAYS as i64, |x| vec![x]), ("hdate", h0, h1, |x| vec![x])]
+  }
   fn eval(&self, env: &Env, out: &mut Out, sub: &str, case: &Case) {
     match sub {
       "sdate" => self.eval_sdate(env, out, case),
